@@ -324,3 +324,78 @@ Proof.
   split; [eapply g_apply_old; exact E|]. split; [eapply g_apply_new; exact E|].
   split; [apply g_apply_effect; exact E|apply IH].
 Qed.
+
+(* ------------------------------------------------------------ symbolic references *)
+(* git's notion of "the current value": follow symbolic references (fuel bounds
+   the chain; a loop resolves to nothing).  Result: the referent and its value *)
+Fixpoint resolve (fuel : nat) (s : store) (n : N) : option (N * option N) :=
+  match fuel with
+  | O => None
+  | S f =>
+    match fm_get n (s_refs s) with
+    | None => Some (n, None)
+    | Some (RHash h) => Some (n, Some h)
+    | Some (RSym t) => resolve f s t
+    end
+  end.
+
+(* git receive-pack's rule (validated against the git binary on every run): the
+   old value is compared with the RESOLVED value and the update goes to the referent *)
+Definition git_apply (fuel : nat) (s : store) (c : cmd) : option store :=
+  match resolve fuel s (c_name c) with
+  | None => None
+  | Some (tgt, cur) =>
+    if optN_eqb cur (c_old c) && new_present s (c_new c)
+    then match c_old c, c_new c with
+         | None, None => None
+         | _, Some h => Some (set_ref s tgt h)
+         | _, None => Some (del_ref s tgt)
+         end
+    else None
+  end.
+
+Definition is_symbolic (s : store) (n : N) : bool :=
+  match fm_get n (s_refs s) with Some (RSym _) => true | _ => false end.
+
+(* go-git never applies a command that names a symbolic reference *)
+Lemma g_apply_symbolic s c : is_symbolic s (c_name c) = true -> g_apply s c = None.
+Proof.
+  unfold is_symbolic, g_apply. destruct (fm_get (c_name c) (s_refs s)) as [[h|t]|]; try discriminate. intros _.
+  destruct c as [n [o|] [h|]]; cbn [c_old c_new rv_hash optN_eqb negb]; try reflexivity.
+  destruct (negb (fm_has h (s_objs s))); reflexivity.
+Qed.
+
+(* an applied command named a reference that itself holds (or, for a create,
+   lacks) exactly the old value: its resolved value is the old value and it is
+   its own referent *)
+Lemma g_apply_resolved s c s' f :
+  g_apply s c = Some s' -> resolve (S f) s (c_name c) = Some (c_name c, c_old c).
+Proof.
+  intro H. pose proof (g_apply_old s c s' H) as Ho. unfold old_matches in Ho. cbn [resolve].
+  destruct (fm_get (c_name c) (s_refs s)) as [[h|t]|]; destruct (c_old c) as [o|]; try discriminate.
+  - cbn [rv_hash optN_eqb] in Ho. apply N.eqb_eq in Ho. subst. reflexivity.
+  - reflexivity.
+Qed.
+
+(* on references that are not symbolic go-git's decision and effect are git's *)
+Lemma g_apply_git s c f :
+  is_invalid c = false -> is_symbolic s (c_name c) = false -> g_apply s c = git_apply (S f) s c.
+Proof.
+  intros Hi Hs. rewrite (g_apply_spec s c Hi). unfold spec_apply, git_apply, old_matches, is_symbolic in *.
+  cbn [resolve]. unfold is_invalid, action_of in Hi.
+  destruct (fm_get (c_name c) (s_refs s)) as [[h|t]|]; try discriminate;
+    destruct c as [n [o|] [w|]]; cbn [c_name c_old c_new rv_hash optN_eqb andb] in *; try discriminate;
+    try reflexivity;
+    try (destruct (h =? o); cbn [andb]; try reflexivity; destruct (new_present s (Some w)); reflexivity);
+    try (destruct (new_present s (Some w)); reflexivity).
+Qed.
+
+(* whatever git would refuse, go-git refuses: go-git's accepted commands are a
+   subset of git's *)
+Lemma g_apply_subset_git s c s' f :
+  is_invalid c = false -> g_apply s c = Some s' -> git_apply (S f) s c = Some s'.
+Proof.
+  intros Hi H. destruct (is_symbolic s (c_name c)) eqn:Hs.
+  - rewrite (g_apply_symbolic s c Hs) in H. discriminate.
+  - rewrite <- (g_apply_git s c f Hi Hs). exact H.
+Qed.
